@@ -240,7 +240,8 @@ def run_history(ctx, history, label, lite=None, nmax=12):
             elif kind == 'execmany':
                 # executemany(statement, parameter sets): a new execution for every set; the cursor ends up holding the last one
                 sizes = list(op[2])
-                cur.executemany('SELECT k, s FROM #t WHERE k < %s', [(z,) for z in sizes])
+                psets = [(z,) for z in sizes]
+                cur.executemany('SELECT k, s FROM #t WHERE k < %s', [psets, iter(psets), (x for x in psets)][sum(sizes) % 3])
                 if sizes:
                     mc.execute(table_rows[:sizes[-1]], ['k', 's'], [int, str])
                     sq[cid] = None
